@@ -199,6 +199,7 @@ type c18RecSink struct {
 	calls  int
 	failAt int
 	fired  bool
+	onCall func(call int) // runs at the start of every delivery (a write that lands while the job runs)
 }
 
 func (r *c18RecSink) GetConfig() map[string]interface{} {
@@ -207,6 +208,9 @@ func (r *c18RecSink) GetConfig() map[string]interface{} {
 
 func (r *c18RecSink) processEntities(runner *Runner, entities []*server.Entity) error {
 	r.calls++
+	if r.onCall != nil {
+		r.onCall(r.calls)
+	}
 	if r.failAt > 0 && r.calls == r.failAt {
 		r.fired = true
 		return fmt.Errorf("verif: injected sink failure at delivery %d", r.failAt)
@@ -227,6 +231,7 @@ type c18Op struct {
 	Ents    []*kit.Ent `json:"ents,omitempty"`
 	Seed    bool       `json:"seed,omitempty"`   // F19 exclusion: seed entity written by the harness
 	FailAt  int        `json:"failAt,omitempty"` // sync: the n-th delivery to the sink in this phase fails once
+	Mid     bool       `json:"mid,omitempty"`    // write: committed while a run of the job was in progress (at the first delivery of the phase)
 	Runs    int        `json:"runs,omitempty"`
 	Emitted []string   `json:"emitted,omitempty"`
 	Tokens  []string   `json:"tokens,omitempty"`
@@ -467,7 +472,7 @@ func (c *c18M) checkTokens(token string) {
 
 // sync runs the job until a successful run leaves its token unchanged and
 // checks the phase. failAt > 0 injects one sink failure.
-func (c *c18M) sync(failAt int) {
+func (c *c18M) sync(failAt int, mid ...c18Op) {
 	if c.inconclusive {
 		return
 	}
@@ -485,6 +490,20 @@ func (c *c18M) sync(failAt int) {
 	kit.Journal(c.cs)
 	exp, nt := c.expected()
 	c.rec.got, c.rec.calls, c.rec.failAt, c.rec.fired = nil, 0, failAt, false
+	midDone := false
+	c.rec.onCall = nil
+	if len(mid) > 0 {
+		// a write to a dependency / join dataset that commits while a run is in progress
+		c.rec.onCall = func(call int) {
+			if !midDone {
+				midDone = true
+				w := mid[0]
+				w.Mid = true
+				c.write(w)
+				c.cls["write-while-the-job-runs"] = true
+			}
+		}
+	}
 	caught := false
 	for op.Runs < 30 {
 		before := c.h.syncState(c18JobID).ContinuationToken
@@ -521,6 +540,12 @@ func (c *c18M) sync(failAt int) {
 		}
 	}
 	c.firstDone = true
+	c.rec.onCall = nil
+	if midDone {
+		// the graph changed during the phase: what has to have been emitted by the time the job has
+		// caught up is judged on the graph as it stands now (plus the previous phase's first-hop links)
+		exp, nt = c.expected()
+	}
 	emitted := map[string]bool{}
 	mainVersions := map[string]bool{}
 	for _, e := range c.m.DS["main"].Feed {
@@ -607,6 +632,16 @@ func TestVerif_C18(t *testing.T) {
 				failAt := 0
 				if rapid.IntRange(0, 2).Draw(t, "fault") == 0 {
 					failAt = rapid.IntRange(1, 4).Draw(t, "failAt")
+				}
+				if rapid.IntRange(0, 3).Draw(t, "midWrite") == 0 {
+					path := cfg.path()
+					ds := rapid.SampledFrom(path[:len(path)-1]).Draw(t, "midDS") // never the main dataset
+					op := c18Op{K: "write", DS: ds}
+					for i := rapid.IntRange(1, 2).Draw(t, "midN"); i > 0; i-- {
+						op.Ents = append(op.Ents, c18GenEnt(t, h.P, cfg, ds))
+					}
+					c.sync(failAt, op)
+					return
 				}
 				c.sync(failAt)
 			},
